@@ -11,7 +11,9 @@ TECHNIQUE = 'complete enumeration of the character space (all 1,114,112 code poi
 RULE = ('states = (a) every code point through clean(); (b) every string of length <=2 over all characters the clean-up changes '
         'plus unmapped/ASCII representatives x all 256 subsets of the eight ASCII targets as deletechars, and length 3 over class '
         'representatives; (c) every module (except the eight generic algorithm modules) x seeds x every position x every '
-        'look-alike of the character at that position, plus the k-th look-alike at all positions at once. oracles from '
+        'look-alike of the character at that position, plus the k-th look-alike at all positions at once; (d) every module compact() x '
+        'every numeric non-ASCII character of Unicode at two digit positions of a documented number: it comes out as the digit d only '
+        'with decimal value d. oracles from '
         'unicodedata only. non-trivial = states where clean() changed something.')
 ASSUMPTIONS = ['the ASCII grave accent may become the ASCII apostrophe (the statement protects ASCII letters and digits only)',
                'the eight generic algorithm modules perform no clean-up and are outside clause (c)']
@@ -76,6 +78,20 @@ def image_table():
             if o != c:
                 _img[c] = o
     return _img
+
+
+_numeric = []
+
+
+def numeric_chars():
+    """Every non-ASCII character with a numeric value or a number category (Nd, Nl, No): about 1,900."""
+    if not _numeric:
+        import unicodedata
+        for cp in range(128, 0x110000):
+            c = chr(cp)
+            if unicodedata.category(c)[0] == 'N' or unicodedata.numeric(c, None) is not None:
+                _numeric.append(c)
+    return _numeric
 
 
 def work(item):
@@ -241,6 +257,32 @@ def work(item):
                         res.viol(ID, 'lookalike-spelling-differs', name, 'validate', {'kind': 'module', 'module': name, 'ascii': base, 'unicode': x},
                                  'validate(%r) -> %r but the ASCII spelling %r -> %r' % (x, ov if ov is not None else o[1:], base, refv),
                                  'same result', excinfo='k=%d' % k, devclass='all-positions', rank=[2, len(x), x])
+        # the module's own clean-up (compact()): a non-ASCII character may come out as the ASCII digit d only if Unicode
+        # assigns it the decimal value d -- every numeric character of Unicode, at the first and at a middle digit
+        if sv and hasattr(m, 'compact'):
+            import unicodedata
+            base = sv[0][1]
+            dpos = [i for i, ch in enumerate(base) if ch in '0123456789']
+            for i in dict.fromkeys([dpos[0], dpos[len(dpos) // 2]]) if dpos else ():
+                as_digit = {}
+                for d_ in '0123456789':
+                    o = outcome(m.compact, base[:i] + d_ + base[i + 1:])
+                    if o[0] == 'ok' and isinstance(o[1], str):
+                        as_digit.setdefault(o[1], d_)
+                if len(as_digit) < 10:
+                    continue        # compact() does not keep this digit apart (strips it, folds it ...)
+                for c in numeric_chars():
+                    n += 1
+                    o = outcome(m.compact, base[:i] + c + base[i + 1:])
+                    if o[0] == 'ok' and o[1] in as_digit:
+                        nt += 1
+                        d_ = as_digit[o[1]]
+                        if unicodedata.decimal(c, None) != int(d_):
+                            res.viol(ID, 'compact-makes-digit', name, 'compact', {'kind': 'compact', 'module': name, 'base': base, 'pos': i, 'cp': ord(c)},
+                                     'compact(%r) = %r: U+%04X (decimal value %r) came out as the digit %s' % (
+                                         base[:i] + c + base[i + 1:], o[1], ord(c), unicodedata.decimal(c, None), d_),
+                                     'only characters with decimal value d become d', excinfo=unicodedata.category(c),
+                                     devclass='numeric-char', rank=[1, ord(c), ''])
         if sv:
             res['samples'].append({'module': name, 'ascii': sv[0][1]})
     res['states'] = n
@@ -265,6 +307,9 @@ def replay(case):
         if ct != t:
             res.viol(ID, 'ascii-text-altered', 'stdnum.util', 'clean', case, 'clean(%r) = %r' % (t, ct), 'unchanged',
                      excinfo='len%d' % len(t), devclass='seed')
+    elif case['kind'] == 'compact':
+        r = work(('modules', case['module'], 'quick'))
+        return [dict(v, sig=None) for v in r['violations'] if v['clause'] == 'compact-makes-digit'][:1]
     elif case['kind'] == 'string':
         r = work(('strings', 0, 'quick'))
         from stdnum.util import clean
